@@ -140,6 +140,29 @@ def configs(max_n, classes=None, l_max=None, min_count=3, deformed=True, used=Fa
     return out
 
 
+# Thin extension of the DESIGN §3 table: the open-boundary classes also accept lattices with one or two
+# sides of length 1 (not all), and on the reference tree every such lattice is a valid (distance-1 or
+# thin) code.  Only the checks that state so (C01, C17) enumerate them.
+THIN_CLASSES = ['Planar2DCode', 'RotatedPlanar2DCode', 'Planar3DCode', 'RotatedPlanar3DCode', 'HollowPlanar3DCode']
+
+
+def thin_configs(max_n, l_max=3, deformed=False):
+    out = []
+    for name in THIN_CLASSES:
+        dim = 2 if name in CLASSES_2D else 3
+        for s in itertools.product(range(1, l_max + 1), repeat=dim):
+            if min(s) != 1 or max(s) == 1:
+                continue
+            n = n_qubits(name, s)
+            if n is None or n > max_n:
+                continue
+            out.append({'cls': name, 'size': list(s), 'deformation': None})
+            if deformed:
+                for d in deformations(name):
+                    out.append({'cls': name, 'size': list(s), 'deformation': d})
+    return out
+
+
 def cfg_label(cfg):
     d = cfg.get('deformation')
     return '%s%s%s%s' % (cfg['cls'], tuple(cfg['size']), '' if not d else '+%s%s' % (d[0], d[1] or ''),
